@@ -363,6 +363,14 @@ func c04Scenarios(tier string) []engine.Scenario {
 						return r
 					}, ""))
 				}
+				if failuresAllowed {
+					// an incomplete form is a failed attempt like any other
+					a = append(a, flows.A("login(B1,u1,pw:empty)", func(s *world.Stack, _ *world.World) world.Req {
+						r := flows.Login(s, b, U1, "", false)
+						r.Tag.Note = "pw:empty"
+						return r
+					}, ""))
+				}
 				if who == "otp" {
 					if l := w.Truth.Live("otp", U1); len(l) > 0 {
 						v := l[0].Val
